@@ -20,3 +20,4 @@ def run(ck):
     sampling.r10_transform_flags(ck, P)
     sampling.r11_rounding_epsilon(ck, P)
     sampling.r13_weight_vector_tracks_position(ck, P)
+    sampling.r14_float_bilinear_weights(ck, P)
